@@ -14,6 +14,7 @@ from vlib.listsem import (
     END,
     ERR,
     N,
+    draw_clock,
     draw_name_or_absent,
     draw_pred,
     draw_resub,
@@ -37,7 +38,7 @@ RULE = (
     "One aggregate form (weighted choice among reduce, scan, count, sum, average, min, max, min_by, max_by, to_list, "
     "to_iterable, to_set, to_dict, first, last, single, first/last/single_or_default, all, some, contains, is_empty, "
     "sequence_equal against an observable and against an iterable; forms with a seed/default and sequence_equal are drawn 2-5 times as often) "
-    "with generated parameters (seed/default absent, None or any value; hash/truthiness/constant predicates or none; "
+    "with generated parameters (seed/default absent, None or any value; hash/truthiness/constant predicates, a predicate returning the element itself (non-bool, judged by truthiness) or none; "
     "hash key mappers; key-equality comparers, plus an asymmetric key(element) < key(value) comparer for contains whose reference is any(comparer(element, value)) -- failures that vanish under swapped arguments get the signature contains:comparer-arg-order; subtraction-style comparers incl. a reversed one) over a finite timeline "
     "of 0..8 (quick) / 0..14 (thorough) elements ending in completion or error from a cold, synchronous-cold or hot "
     "(subscribed mid-stream) virtual-time source; numeric aggregates with default arithmetic draw from the numeric values "
@@ -53,7 +54,7 @@ RULE = (
     "sequences at the same tick both consistent orders (first-before-second, second-before-first) are accepted. "
     "Non-trivial: a value was expected and differs from the input list, or a boundary class (b:*: empty input, default or "
     "seed None/absent, default used, short-circuit, second element of single, duplicate keys, ties) is hit. "
-    "In about a third of the cold/sync cases the same built observable is subscribed a second time (after termination, "
+    "About one case in eight runs on HistoricalScheduler (datetime clock) instead of TestScheduler; an iterable second sequence is a list, a tuple or (single subscription only) a one-shot iterator. In about a third of the cases (also in the enumeration; hot sources: overlapping or after dispose only) the same built observable is subscribed a second time (after termination, "
     "overlapping at a later tick, or right after disposing the first subscription early: the disposed probe must hold a "
     "prefix of its expected trace containing everything before the dispose tick) and the same oracle, shifted to the "
     "second subscribe tick, is applied to the second probe (signature suffix :2nd-subscription). "
@@ -244,8 +245,10 @@ def _build(lab, form, a, second):
     if form.startswith("sequence_equal"):
         if second[0] == "iter":
             other = [dval(v) for v in second[1]]
-            if a.get("as_tuple"):
+            if a.get("as_tuple") or a.get("as") == "tuple":
                 other = tuple(other)
+            elif a.get("as") == "iterator":
+                other = iter(other)  # one-shot iterable (single subscription only)
         else:
             other = second[1]
         eq = mk_eq(a.get("cmp"))
@@ -452,6 +455,8 @@ def _oracle(form, a, E, term, S, second):
         else:
             _, _, e2, t2 = second
             R = [(t, "N", dval(p)) for t, p in e2] + [t2]
+        if second[0] == "iter":
+            cls.append("iterable:" + ("tuple" if a.get("as_tuple") else a.get("as", "list")))
         e1, c1 = _seq_equal(L, R, eq, True)
         e2_, c2 = _seq_equal(L, R, eq, False)
         cls.append(c1)
@@ -528,7 +533,7 @@ def _args(draw, form):
         if form.endswith("comparer"):
             a["cmp"] = {"m": draw(st.integers(2, 6))}
         if "iter" in form:
-            a["as_tuple"] = draw(st.booleans())
+            a["as"] = draw(st.sampled_from(["list", "tuple", "iterator"]))
         return a
     return {}
 
@@ -582,6 +587,11 @@ def _cases(draw, max_len, forms=tuple(_WEIGHTED)):
     rs = draw_resub(draw, src, case.get("src2"))
     if rs is not None:
         case["resub"] = rs
+        if args.get("as") == "iterator":
+            args["as"] = "list"  # a one-shot iterator cannot serve two subscriptions
+    ck = draw_clock(draw)
+    if ck is not None:
+        case["clock"] = ck
     return case
 
 
@@ -593,21 +603,28 @@ def _enum(tier):
             for end in ("C", "E"):
                 for kind, sub in (("cold", 0), ("hot", 0), ("hot", 1), ("sync", 1)):
                     tl = [[i, "N", names[i % 3]] for i in range(n)] + [[n, end, "e1" if end == "E" else None]]
-                    yield {"form": base, "args": {}, "sub": sub, "src": {"kind": kind, "tl": tl}}
-                    for d in (["absent"], ["v", "none"], ["v", "i0"]):
-                        for p in (None, {"m": 2, "r": [0]}):
-                            yield {"form": base + "_or_default", "args": {"p": p, "default": d}, "sub": sub, "src": {"kind": kind, "tl": tl}}
+                    resubs = [None]
+                    if kind == "cold":
+                        resubs += [{"mode": "after", "d": 0}, {"mode": "overlap", "d": 0}, {"mode": "dispose", "d": 1}]
+                    elif kind == "hot" and sub == 0 and n >= 1:
+                        resubs += [{"mode": "overlap", "d": 0}, {"mode": "dispose", "d": 1}]
+                    for rs in resubs:
+                        extra = {} if rs is None else {"resub": rs}
+                        yield dict({"form": base, "args": {}, "sub": sub, "src": {"kind": kind, "tl": tl}}, **extra)
+                        for d in (["absent"], ["v", "none"], ["v", "i0"]):
+                            for p in (None, {"m": 2, "r": [0]}):
+                                yield dict({"form": base + "_or_default", "args": {"p": p, "default": d}, "sub": sub, "src": {"kind": kind, "tl": tl}}, **extra)
 
 
 def checks(tier):
     ml = 8 if tier == "quick" else 14
     return [
-        Check("enum-defaults", _run, cases=_enum, shards={"quick": 1, "thorough": 1}, exhaustive=True),
+        Check("enum-defaults", _run, cases=_enum, shards={"quick": 2, "thorough": 2}, exhaustive=True),
         Check(
             "forms",
             _run,
             strategy=_cases(ml),
-            examples={"quick": 10000, "thorough": 16 * 50000},
+            examples={"quick": 8000, "thorough": 16 * 50000},
             shards={"quick": 8, "thorough": 16},
         ),
     ]
